@@ -7,6 +7,7 @@ import PgVerif.Model.LineCol
 import PgVerif.Model.TableGen
 import PgVerif.Spec.LR1
 import PgVerif.Spec.Prec
+import PgVerif.Spec.LexRules
 import PgVerif.Generated.Source
 /-!
 `pgmodel`: line-protocol driver. One request per line (a command word followed
@@ -250,6 +251,15 @@ def handle (st : St) (cmd : String) (args : List Nat) : St × String :=
       let toks := nextTokens T inp (consume != 0) (lexdis != 0) s p
       (st, "tokens " ++ natList (toks.flatMap (fun t => [t.term, t.len])))
     | _, _, _ => (st, "bad-tokens")
+  | "rules" =>
+    -- rules <state> <pos> <lexdis> <strlike flag per terminal...>: the documented rule set on the candidates
+    match st.T, st.inp, args with
+    | some T, some inp, s :: p :: lexdis :: flags =>
+      let strLike := fun t => flags.getD t 0 != 0
+      let cands := candidates T inp s p
+      let toks := if lexdis != 0 then lexRules T strLike cands else topPriority T cands
+      (st, "rules " ++ natList (toks.flatMap (fun t => [t.term, t.len])))
+    | _, _, _ => (st, "bad-rules")
   | "sentence" =>
     match st.inp, args with
     | some inp, [fuel] =>
